@@ -103,8 +103,37 @@ func (r *runner) scenario() {
 		publics[i] = &p
 	}
 	badMasked := false
+	// sequence scenario over the process-wide decoded-point cache: step 1 offers a
+	// special encoding in every position that decodes a point, step 2 (the flow
+	// below) has the same encoding as a masked key
+	var special crypto.Key
+	specialBefore := false
+	if cs.Kind == "seq-cache" {
+		sps := cosih.Specials()
+		sp := sps[cs.Aux%len(sps)]
+		special = sp.Key
+		specialBefore = special.CheckKey()
+		for _, o := range cosih.PresentEverywhere(special, vh.NewRand(cs.NonceSeed, "c13-step1")) {
+			if o.Accepted {
+				r.fail("special-accepted", fmt.Sprintf("%s accepted the %s encoding %x", o.Pos, sp.Name, special[:]))
+			}
+		}
+		defer func() {
+			after := special.CheckKey()
+			if after != specialBefore {
+				r.fail("checkkey-changed", fmt.Sprintf("CheckKey(%x) answered %v before and %v after the encoding was seen in other positions", special[:], specialBefore, after))
+			} else if after {
+				r.fail("special-accepted", fmt.Sprintf("CheckKey accepted the %s encoding %x", sp.Name, special[:]))
+			}
+		}()
+	}
 	if cs.BadKey != "" && cs.BadIdx < cs.N {
 		switch cs.BadKey {
+		case "special":
+			e := special
+			publics[cs.BadIdx] = &e
+			kz[cs.BadIdx] = cosih.SpecialLog(e)
+			T.PutEnc(kz[cs.BadIdx], e[:])
 		case "garbage":
 			g := garbage
 			publics[cs.BadIdx] = &g
@@ -625,6 +654,12 @@ func sizeOf(r *vh.Rand) int {
 
 func corpus(r *vh.Rand) []Case {
 	var cs []Case
+	// sequences over the point cache: one per special encoding, the encoding as masked key 1 of 2
+	for i := range cosih.Specials() {
+		q := gen(r, "seq-cache", 2)
+		q.Signers, q.BadKey, q.BadIdx, q.Aux, q.Threshold, q.Victim = []int{0, 1}, "special", 1, i, 1+i%2, 0
+		cs = append(cs, q)
+	}
 	for _, n := range []int{1, 2, 63, 64} {
 		c := gen(r, "threshold", n)
 		cs = append(cs, c)
@@ -656,7 +691,7 @@ func main() {
 		"shuffled map), random message and threshold, one tamper kind per scenario (bit flip / swap / other message / random / s+l / missing / " +
 		"nil / extra share; mask index >= len(keys); mask bit without commitment; commitment index outside 0..63 or undecodable; signature S bit, " +
 		"R garbage/other point; message bit; masked / unmasked key replaced; mask bit added / removed; threshold sweep -1..65; undecodable, nil, " +
-		"identity key in the vector). Every scenario runs Challenge, all Responses, VerifyResponse per signer, strict and non-strict " +
+		"identity key in the vector; sequence scenarios: every small-order / mixed-order / y>=p encoding first offered in all point-decoding positions of the package, then used as a masked key). Every scenario runs Challenge, all Responses, VerifyResponse per signer, strict and non-strict " +
 		"AggregateResponse, FullVerify. Non-trivial = the challenge could be computed (mask within the key vector); distinct by the whole scenario."
 	var all []*cosih.MCase
 	if c.Replay != "" {
